@@ -32,6 +32,16 @@ class DCfg:
 NOFLAG = object()
 
 
+class _Sentinel:
+    """A default value whose identity matters (`x is SENTINEL`)."""
+
+    def __repr__(self) -> str:
+        return "SENTINEL"
+
+
+SENTINEL = _Sentinel()
+
+
 class Mode:
     """Switch between the tawazi build and the plain-Python evaluation of the same describing code."""
 
@@ -41,6 +51,7 @@ class Mode:
         self.dags: Dict[str, Any] = {}  # name -> (plain describing function, DAG object, return shape, (n required, n defaulted))
         self.own_flag: Dict[str, bool] = {}  # nested DAG (transitively) contains a node with its own twz_active
         self.user_fns: List[str] = []  # functions the generated outer program may call
+        self.debug_used = False
         self.user_dags: List[str] = []
 
     def call(self, name: str, args: List[Any], kw: Dict[str, Any], active: Any = NOFLAG, reserved: Optional[Dict[str, Any]] = None) -> Any:
@@ -262,7 +273,10 @@ def build_inner(c: Ctx, M: Mode, H: Holes, name: str, depth: int) -> None:
         build_inner(c, M, H, name + "_in", depth - 1)
     # the node inside the nested DAG: argument form and an activation flag of its own
     argform = ("pos", "kw", "idx", "kwidx")[H.hole(name + ".argform", 3)]
-    dflt = (1, None, "s")[H.hole(name + ".default", 2)]  # default value of the defaulted parameters
+    dflt = (1, None, SENTINEL)[H.hole(name + ".default", 2)]  # default value of the defaulted parameters (SENTINEL: identity matters)
+    with_debug = bool(H.hole(name + ".debugnode", 1))  # a debug node inside the nested DAG (RUN_DEBUG_NODES is on for the run)
+    if with_debug:
+        M.debug_used = True
     ownflag = (None, "p", "pidx", False)[H.hole(name + ".ownflag", 3)]
 
     def body(*params: Any) -> Any:
@@ -276,6 +290,8 @@ def build_inner(c: Ctx, M: Mode, H: Holes, name: str, depth: int) -> None:
             kw["k"] = args.pop()["k"]
         flag = NOFLAG if ownflag is None else (p if ownflag == "p" else (p[0] if ownflag == "pidx" else False))
         u = M.call("h", args, kw, flag)
+        if with_debug:
+            M.call("hd", [u], {})  # its value is not used; whether it runs is compared through the entry counts
         if nested:
             r = M.sub(name + "_in", [u])
             sh = M.dags[name + "_in"][2]
@@ -301,7 +317,9 @@ def build_inner(c: Ctx, M: Mode, H: Holes, name: str, depth: int) -> None:
     else:
         def fn(p, q):  # type: ignore[no-untyped-def]
             return body(p, q)
-    fn.__name__ = fn.__qualname__ = name
+    # the inner DAGs share their simple name and differ in their qualified name (as DAGs made by two factories do)
+    fn.__name__ = "inner"
+    fn.__qualname__ = name
     M.tawazi = True
     d = dag(fn)
     M.dags[name] = (fn, d, shape, sig)
@@ -319,12 +337,13 @@ def run_dataflow(cfg: DCfg, c: Ctx) -> Any:
     res = {"m": Resource.main_thread, "t": Resource.thread, "a": Resource.async_thread}
     resource = res[cfg.resources[H.hole("res", len(cfg.resources) - 1)]]
     flavour = cfg.flavours[H.hole("flavour", len(cfg.flavours) - 1)]
-    for name, unpack in (("f", None), ("g", None), ("h", None), ("f2", 2)):
+    for name, unpack in (("f", None), ("g", None), ("h", None), ("f2", 2), ("hd", None)):
         plain = term_fn(name, cnt)
-        M.fn[name] = (plain, xn(plain, unpack_to=unpack, resource=resource), unpack)
+        M.fn[name] = (plain, xn(plain, unpack_to=unpack, resource=resource, debug=(name == "hd")), unpack)
     g = Gen(c, cfg, M, H, cnt)
     # ---- draw the program
     supplied_b = bool(H.hole("supply_b", 1))
+    b_default = (11, 0, None)[H.hole("b_default", 2)]  # default of the DAG's second parameter (a falsy default is still only a default)
     npool = 2
     stmts = []
     for k in range(len(cfg.stmts)):
@@ -342,7 +361,7 @@ def run_dataflow(cfg: DCfg, c: Ctx) -> Any:
     spec = {"stmts": stmts, "ret": ret, "supplied_b": supplied_b, "flavour": flavour, "deviations": list(H.log),
             "inner": {k: (v[2], v[3]) for k, v in M.dags.items()}}
 
-    def describe(a, b=11):  # type: ignore[no-untyped-def]
+    def describe(a, b=b_default):  # type: ignore[no-untyped-def]
         pool = [a, b]
         g.last_sub = NOFLAG
         for st in stmts:
@@ -359,6 +378,10 @@ def run_dataflow(cfg: DCfg, c: Ctx) -> Any:
         raise
     except BaseException as e:
         build_exc = e
+    from tawazi import cfg as twz_cfg
+
+    saved_debug = twz_cfg.RUN_DEBUG_NODES
+    twz_cfg.RUN_DEBUG_NODES = bool(M.debug_used)
     A, B = c.val("a"), c.val("b")
     call_args = (A, B) if supplied_b else (A,)
     got: Tuple[str, Any]
@@ -382,6 +405,7 @@ def run_dataflow(cfg: DCfg, c: Ctx) -> Any:
             got = ("raise", type(e).__name__)
     else:
         got = ("build-raise", repr(build_exc)[:200])
+    twz_cfg.RUN_DEBUG_NODES = saved_debug
     counts_dag = dict(cnt.n)
     # ---- plain side
     M.tawazi = False
